@@ -183,6 +183,14 @@ def Valid (c : Cfg) (s : State) : List Event → Prop
   | [] => True
   | e :: es => Ok s e ∧ Valid c (step c s e).1 es
 
+/-- The same assumptions stated on the history alone (no reference to the state): `added`
+is the list of peers handed to `add` so far. -/
+def ValidH (added : List Peer) : List Event → Prop
+  | [] => True
+  | .add p :: es => (∀ q ∈ added, q.id ≠ p.id) ∧ (p.kind ≠ .inbound → p.vk = true) ∧ ValidH (p :: added) es
+  | .done p :: es => (∀ q ∈ added, q.id = p.id → q = p) ∧ ValidH added es
+  | _ :: es => ValidH added es
+
 /-! ### the specification's own notion of "banned until": independent of `State.banned` -/
 
 structure Ghost where
